@@ -2,7 +2,7 @@
 //! over the recorded client results, host receive log and connection registry after the run.
 
 use crate::clients::{ConnPlan, ConnResult, ReqPlan, ReqResult};
-use crate::hosts::{self, Recv, SigCheck};
+use crate::hosts::{self, HostFault, Recv, SigCheck};
 use crate::rbac::{self, Outcome};
 use crate::world::{Phase, Run};
 use serde_json::{json, Value};
@@ -76,6 +76,7 @@ pub fn check_proxy(run: &mut Run) {
     let faults_flowing = plan["faulty"].as_bool().unwrap_or(false);
     let conns = run.conns.clone();
     let phases = run.phases.clone();
+    let faulted_upstream: Vec<vrt::net::ConnInfo> = vrt::net::conn_infos().into_iter().filter(|ci| ci.initiator.tgid == vrt::procs::AGENT_PID && !ci.faults.is_empty()).collect();
     let mut viol: Vec<(String, String, String)> = Vec::new();
     let mut stats: BTreeMap<String, i64> = BTreeMap::new();
     macro_rules! bump {
@@ -105,6 +106,7 @@ pub fn check_proxy(run: &mut Run) {
         // the destination the kernel recorded for the connection (what the agent must judge)
         let recorded_dst = match &cp.inject { Some(d) => d.clone(), None => cp.dst.clone() };
         let protected = [hosts::WIRE, hosts::GA, hosts::IMDS].contains(&cp.dst.as_str());
+        let mut conn_disturbed = false;
         for (ri, rq) in cp.reqs.iter().enumerate() {
             known_tokens.insert(rq.tok.clone(), ());
             let res = cr.results.get(ri);
@@ -130,6 +132,22 @@ pub fn check_proxy(run: &mut Run) {
             if relayed {
                 bump!("relayed");
             }
+            // faults that hit THIS request: a scripted host fault applied to it, or a connection-level fault on an upstream
+            // connection the agent opened towards this request's destination while the request was outstanding. Only the
+            // client-facing expectations of such a request are relaxed (it may get a 5xx, a truncated answer or none);
+            // everything judged at the host side stays strict.
+            let host_fault = h.faulted_tokens.get(&rq.tok).cloned();
+            let t_lo = res.map(|r| r.t_sent_ns).unwrap_or(u64::MAX);
+            let t_hi = res.and_then(|r| r.resp.as_ref().map(|_| r.t_resp_ns)).unwrap_or(u64::MAX);
+            let net_faulted = res.map(|r| r.sent).unwrap_or(false) && faulted_upstream.iter().any(|ci| ci.actual_dst.to_string() == recorded_dst && ci.opened_ns >= t_lo.min(cr.t_connect_ns) && ci.opened_ns <= t_hi);
+            // the proxy keeps one upstream connection per client connection: once it was hit, later requests on the same
+            // client connection may meet the dead upstream connection
+            let disturbed = conn_disturbed || net_faulted || matches!(host_fault, Some(HostFault::ResetBefore) | Some(HostFault::ResetAfter) | Some(HostFault::CutResponse(_)));
+            conn_disturbed = disturbed;
+            if disturbed {
+                bump!("fault.request_disturbed_by_upstream_fault");
+            }
+            let faults_flowing = faults_flowing || disturbed;
             if recvs.len() > 1 {
                 viol.push(("C14".into(), "request relayed more than once".into(), format!("tok={} seen {} times at hosts", rq.tok, recvs.len())));
             }
@@ -271,7 +289,18 @@ pub fn check_proxy(run: &mut Run) {
                 // C04 / C10 signature
                 if on("C04") || on("C10") {
                     let key_expected = phase.latched_guid.is_some() && phase.prev_docs.is_empty() && doc_enabled(&phase.doc);
-                    match &rv.sig {
+                    // a request the proxy does not sign (no key latched, exempt upload) carries whatever authorization header
+                    // its client supplied: that value is the client's, not the proxy's, and is not judged
+                    let client_supplied_auth = rq.headers.iter().any(|(n, _)| n.eq_ignore_ascii_case("x-ms-azure-host-authorization"));
+                    let sig_owned_by_client = client_supplied_auth && (!key_expected || exempt);
+                    let not_judged = SigCheck::NotJudged("client-supplied authorization header on a request the proxy does not sign".into());
+                    let judged_sig = if sig_owned_by_client && matches!(rv.sig, SigCheck::Invalid { .. } | SigCheck::Malformed(_)) {
+                        bump!("sig.client_supplied_on_unsigned_request");
+                        &not_judged
+                    } else {
+                        &rv.sig
+                    };
+                    match judged_sig {
                         SigCheck::Valid { guid, .. } => {
                             bump!("sig.valid");
                             guids_per_phase.entry(*pi).or_default().insert(guid.clone());
@@ -330,7 +359,14 @@ pub fn check_proxy(run: &mut Run) {
                     for (n, v) in &rq.headers {
                         let ln = n.to_ascii_lowercase();
                         if ln == "x-ms-azure-host-claims" || ln == "x-ms-azure-host-date" {
-                            if m.head.get_all(&ln).iter().any(|x| x.as_slice() == v.as_slice()) && !(ln == "x-ms-azure-host-claims" && v.as_slice() == want.as_bytes()) {
+                            // a client value that happens to equal what the proxy itself produces (the true elevation; the
+                            // proxy's current second) is indistinguishable from the proxy's own header and is not a leak
+                            let equals_own_date = ln == "x-ms-azure-host-date" && {
+                                let lo = res.map(|r| r.wall_sent_ns).unwrap_or(0) / 1_000_000_000 - 1;
+                                let hi = rv.wall_recv_ns / 1_000_000_000 + 1;
+                                parse_rfc1123(&String::from_utf8_lossy(v)).map(|s| (s as i128) >= lo && (s as i128) <= hi).unwrap_or(false)
+                            };
+                            if m.head.get_all(&ln).iter().any(|x| x.as_slice() == v.as_slice()) && !(ln == "x-ms-azure-host-claims" && v.as_slice() == want.as_bytes()) && !equals_own_date {
                                 viol.push(("C05".into(), "client-supplied proxy-owned header value reached the host".into(), format!("tok={} {}: {:?}", rq.tok, ln, String::from_utf8_lossy(v))));
                             }
                         }
@@ -400,7 +436,17 @@ pub fn check_proxy(run: &mut Run) {
 
             // ---------------- C14 client side transparency
             if on("C14") && relayed && !faults_flowing {
-                let spec = h.resp_specs.get(&rq.tok);
+                if let Some(HostFault::Status(s)) = &host_fault {
+                    // an error status produced by the host is relayed as it is
+                    if let Some(m) = res.and_then(|r| r.resp.as_ref()) {
+                        if m.status() != *s {
+                            viol.push(("C14".into(), "status changed".into(), format!("tok={} host answered {} (injected), client received {}", rq.tok, s, m.status())));
+                        }
+                        bump!("c14.error_status_relayed");
+                    }
+                }
+                let spec = if host_fault.is_some() && !matches!(host_fault, Some(HostFault::Stall(_))) { None } else { h.resp_specs.get(&rq.tok) };
+                let spec_absent_by_fault = spec.is_none() && h.resp_specs.contains_key(&rq.tok);
                 if let (Some(spec), Some(r)) = (spec, res) {
                     if spec.cut_after.is_none() {
                         match &r.resp {
@@ -448,7 +494,7 @@ pub fn check_proxy(run: &mut Run) {
                     }
                 }
                 // response i carries the token of request i: the default echo body names the token
-                if spec.is_none() {
+                if spec.is_none() && !spec_absent_by_fault && !matches!(host_fault, Some(HostFault::Status(_))) {
                     if let Some(m) = res.and_then(|r| r.resp.as_ref()) {
                         if m.status() == 200 && rq.method != "HEAD" && !String::from_utf8_lossy(&m.body).ends_with(&format!("tok={}", rq.tok)) {
                             viol.push(("C14".into(), "response does not belong to this request".into(), format!("tok={} body={:?}", rq.tok, String::from_utf8_lossy(&m.body[..m.body.len().min(80)]))));
@@ -480,6 +526,10 @@ pub fn check_proxy(run: &mut Run) {
         for ci in vrt::net::conn_infos() {
             // a call of the agent's own that is still in flight when the run stops is not judged
             if now.saturating_sub(ci.opened_ns) < 2_500_000_000 {
+                continue;
+            }
+            // a connection cut by an injected connection-level fault may have carried part of a request
+            if !ci.faults.is_empty() {
                 continue;
             }
             if ci.initiator.tgid == vrt::procs::AGENT_PID && ci.bytes_out > 0 && !with_req.contains(&ci.id) {
@@ -602,7 +652,14 @@ pub fn rbac_direct(run: &mut Run, step: &Value) {
                 continue;
             }
         };
-        let computed = ComputedAuthorizationItem::from_authorization_item(item);
+        let computed = match std::panic::catch_unwind(std::panic::AssertUnwindSafe(|| ComputedAuthorizationItem::from_authorization_item(item))) {
+            Ok(c) => c,
+            Err(_) => {
+                run.violate("C13", "rule flattening panicked", format!("item={}", item_json));
+                run.violate("C02", "rule flattening panicked", format!("item={}", item_json));
+                continue;
+            }
+        };
         for pi in procs.iter() {
             let caller = crate::world::caller_of(&plan, *pi);
             let p = &plan["procs"][*pi];
@@ -625,7 +682,15 @@ pub fn rbac_direct(run: &mut Run, step: &Value) {
                     Err(_) => continue,
                 };
                 let mut logger = ConnectionLogger::new(0, 0);
-                let got = computed.is_allowed(&mut logger, uri, claims.clone());
+                // a panic of the decision function is a finding about the repository code, not a harness failure
+                let got = match std::panic::catch_unwind(std::panic::AssertUnwindSafe(|| computed.is_allowed(&mut logger, uri, claims.clone()))) {
+                    Ok(g) => g,
+                    Err(_) => {
+                        run.violate("C13", "decision function panicked", format!("url={} caller={:?} item={}", us, caller, item_json));
+                        run.violate("C02", "decision function panicked", format!("url={} caller={:?} item={}", us, caller, item_json));
+                        continue;
+                    }
+                };
                 let want = rbac::is_allowed(item_json, &caller, us);
                 n += 1;
                 if want == rbac::Decision::Deny {
